@@ -62,6 +62,7 @@ struct LThread {
 };
 
 inline thread_local LThread* tl_self = nullptr;
+inline std::atomic<std::uint64_t> g_unscheduled_spins{0};
 inline thread_local int tl_noyield = 0; // >0: yields are ignored (oracle code running inside a logical thread)
 
 struct NoYield {
@@ -87,6 +88,10 @@ public:
     unsigned preempt_cats{0xffffffffU}; // bit (cat>>4): categories at which preemption is considered
     std::function<void(const char* what)> on_fatal; // deadlock: must not return
     bool hold_background{false}; // keep adopted background threads parked after run() until release_background()
+    // explicit schedule (bounded-exhaustive enumeration): (global step, thread id to switch to); used instead of the byte policy
+    std::vector<std::pair<std::uint64_t, int>> script;
+    bool use_script{false};
+    int script_first{0};
 
     // ---- statistics of the last run ---------------------------------------------------------------
     std::uint64_t steps{0};
@@ -108,6 +113,7 @@ public:
         writes_performed_ = 0;
         outcome = Outcome::Ok;
         released_.store(false);
+        g_unscheduled_spins.store(0);
         trace.clear();
         n_workers_ = bodies.size();
         ensure_workers(n_workers_);
@@ -121,6 +127,8 @@ public:
         }
         // policy
         mode_ = bytes_.byte() % 3;
+        script_pos_ = 0;
+        if (use_script) { mode_ = 3; }
         if (!background_.empty() && mode_ == 2) { mode_ = 0; } // priority scheduling starves the workers behind never-ending background threads
         std::uint8_t t = bytes_.byte();
         thresh_ = (t % 3 == 0) ? 64 : (t % 3 == 1 ? 24 : 128);
@@ -357,6 +365,7 @@ private:
     std::uint64_t change_points_[3]{0, 0, 0};
     std::uint64_t bg_iterations_[4]{0, 0, 0, 0};
     std::size_t grant_rr_{0};
+    std::size_t script_pos_{0};
 
     static void set_stack_bounds(LThread* l) {
         pthread_attr_t attr;
@@ -429,6 +438,8 @@ private:
                 }
                 return false;
             }
+            case 3: // explicit script
+                return script_pos_ < script.size() && steps >= script[script_pos_].first;
             default: { // PCT: run the highest priority; at change points the running thread drops to the lowest
                 for (auto& cp : change_points_) {
                     if (cp != 0 && steps == cp) {
@@ -445,6 +456,21 @@ private:
     }
     LThread* pick(const std::vector<LThread*>& c, LThread* /*self*/) {
         if (c.empty()) { return nullptr; }
+        if (mode_ == 3) {
+            // scripted switch if one is due, otherwise the lowest thread id (forced switches: block / finish)
+            if (script_pos_ < script.size() && steps >= script[script_pos_].first) {
+                int want = script[script_pos_++].second;
+                for (auto* l : c) {
+                    if (l->id == want) { return l; }
+                }
+            }
+            if (steps == 0) {
+                for (auto* l : c) {
+                    if (l->id == script_first) { return l; }
+                }
+            }
+            return c[0];
+        }
         if (mode_ == 2) {
             LThread* best = c[0];
             for (auto* l : c) {
@@ -490,7 +516,19 @@ using EventSink = void (*)(int ev, const void* obj, std::uint64_t a, std::uint64
 inline EventSink g_event_sink = nullptr;
 } // namespace vf
 namespace yakushima::verif {
-void yield(int kind, const void* addr) noexcept { sched::Scheduler::get().yield(kind, addr); }
+void yield(int kind, const void* addr) noexcept {
+    if (sched::tl_self == nullptr) {
+        // unscheduled thread (setup / quiescent checks on the main thread): a spin that never ends means a lock or dirty bit was
+        // left behind by the scheduled threads
+        if ((kind & Y_ACCESS_MASK) == Y_SPIN && ++sched::g_unscheduled_spins > 300000) {
+            std::fprintf(stdout, "FAIL signature=lock_left msg=an unscheduled thread spins forever on a lock / dirty version left behind\n");
+            std::fflush(stdout);
+            _exit(4);
+        }
+        return;
+    }
+    sched::Scheduler::get().yield(kind, addr);
+}
 void event(int ev, const void* obj, std::uint64_t a, std::uint64_t b) noexcept {
     if (vf::g_event_sink != nullptr) { vf::g_event_sink(ev, obj, a, b); }
 }
